@@ -849,3 +849,4 @@ func H_C02_serix_map() {
 	}
 }
 
+
